@@ -16,6 +16,7 @@ VF_BUCKET(uint32_t, 8, 550, 0, double);
 VF_BUCKET(uint64_t, 128, 7, 32, float);
 #endif
 #if VF_GROUP == 3
+VF_BUCKET_BIG(uint64_t, 1, 4095, 0, float);
 VF_BUCKET(uint64_t, 4, 2, 8, float);
 VF_BUCKET(uint32_t, 1, 4095, 16, float);
 #endif
